@@ -148,3 +148,28 @@ Proof. exact bq_usage_example. Qed.
 Example c01_finish_example :
   exists s, Reach 0 [[OPush f111 1]; [OPop f111]] s /\ all_done s = true /\ delivered s = [(0, 1)] /\ pushed s = [(0, 1)].
 Proof. exact bq_finish_example. Qed.
+
+(* ---- "fully published access": the release/acquire half on the explicit view machine of coq/WM/RA.v ----
+   For every publish path of the queue (single push/pop: release store or release exchange of the slot version;
+   try_: release store; batch / try_n: release fence + relaxed version stores) and every observe path (single:
+   acquire version load; try_: acquire load; batch / try_n: relaxed loads + acquire fence), with the memory
+   orders regenerated from bounded_queue.hpp, and for EVERY execution of the view machine: a callback that saw
+   the version published reads the element the other side wrote, and there is no data race on it. *)
+Require Import Verif.Base.Atomics Verif.WM.RA Verif.WM.RALitmus Verif.BQ.BQLitmus.
+Theorem c01_publication : forall pf x o_st o_ld cf, In (pf, x, o_st) publishers -> In (o_ld, cf) observers ->
+  forall sch, RA.final (RA.run (RA.init (mp_general pf x o_st o_ld cf)) sch) = true ->
+  mp_bad (RA.result (RA.run (RA.init (mp_general pf x o_st o_ld cf)) sch)) = false.
+Proof. exact bq_publication. Qed.
+Print Assumptions c01_publication.
+
+(* the order parameters of wait_until_reach_expected_version / set_version are really the ones used for the access *)
+Theorem c01_publication_orders_are_used :
+  Gen_bounded_queue_orders.wait_load_uses_param_order = true /\ Gen_bounded_queue_orders.set_version_uses_param_order = true.
+Proof. exact bq_param_orders_used. Qed.
+
+(* weakened orders: the racy executions exist (the check's search prints one when the source is weakened) *)
+Theorem c01_publication_weakened_refuted :
+  mp_general_safe None false Relaxed Acquire None = false /\ mp_general_safe None false Release Relaxed None = false /\
+  mp_general_safe (Some Release) false Relaxed Relaxed None = false /\ mp_general_safe None false Relaxed Relaxed (Some Acquire) = false.
+Proof. exact (conj bq_single_relaxed_store_refuted (conj bq_single_relaxed_load_refuted
+              (conj bq_batch_no_acquire_fence_refuted bq_batch_no_release_fence_refuted))). Qed.
